@@ -52,8 +52,8 @@ def run(ctx):
     ctx.add_tlc(res)
     cases = ctx.path("cases.ndjson")
     vlib.write_ndjson(cases, res.replay)
-    out, tracep = common.harness_json(ctx, "c19", {"cases_file": cases, "seed": ctx.seed, "random_values": 300 if q else 6000,
-                                                    "random_junk": 4000 if q else 100000, "alphabet_extra": _alphabet(), "trace_bytes": 250000 if q else 4000000})
+    out, tracep = common.harness_json(ctx, "c19", {"cases_file": cases, "seed": ctx.seed, "random_values": 300 if q else 40000,
+                                                    "random_junk": 4000 if q else 6000000, "alphabet_extra": _alphabet(), "trace_bytes": 250000 if q else 12000000})
     tres, events = _report(ctx, out, tracep)
     ctx.cov["evaluations"] = out["evaluations"] + out["prefixes"]
     ctx.cov["distinct_nontrivial"] = out["distinct_wellformed"]
